@@ -405,9 +405,9 @@ pub mod lanes {
                 // a lane that cannot finish in its own time box is recorded as unavailable; it never
                 // turns the whole check into a watchdog kill
                 let cap = match *lane {
-                    "asan" => 2400,
-                    "miri" => 1800,
-                    _ => 1200,
+                    "asan" => 1500,
+                    "miri" => 1200,
+                    _ => 900,
                 };
                 let handle = std::thread::spawn(move || {
                     let t0 = std::time::Instant::now();
